@@ -362,7 +362,10 @@ func runC12(c *h.Ctx) {
 
 	// sequences: lax existential, strict all-pairs
 	seqs := [][2]string{{`[1,2,3]`, `[3]`}, {`[1,"a"]`, `[1]`}, {`["a",1]`, `[1]`}, {`[1,2]`, `["a",2]`}, {`[1,2]`, `[2,"a"]`}, {`[]`, `[1]`}, {`[1]`, `[]`}, {`[null,1]`, `[null]`}, {`[[1]]`, `[1]`},
-		{`[1,2]`, `[3,4]`}, {`["a","b"]`, `["b"]`}, {`[true]`, `[true,1]`}, {`[{}]`, `[{}]`}, {`[1,{}]`, `[1]`}, {`[{},1]`, `[1]`}, {`[2,1]`, `[1,"x"]`}}
+		{`[1,2]`, `[3,4]`}, {`["a","b"]`, `["b"]`}, {`[true]`, `[true,1]`}, {`[{}]`, `[{}]`}, {`[1,{}]`, `[1]`}, {`[{},1]`, `[1]`}, {`[2,1]`, `[1,"x"]`},
+		// arrays next to arrays: each is unwrapped (one level) in lax mode
+		{`[[1],[2]]`, `[2]`}, {`[[1],[2]]`, `[3]`}, {`[[],[2]]`, `[2]`}, {`[[1],[2],[3]]`, `[3]`}, {`[[1,2],[3],[4]]`, `[4]`}, {`[1,[2],[3]]`, `[3]`}, {`[[1],[],[],[2]]`, `[2]`}, {`[2]`, `[[1],[2]]`},
+		{`[["a"],["b"]]`, `["b"]`}, {`[[[1]],[2]]`, `[2]`}, {`[[1],[[2]]]`, `[2]`}}
 	for i, s := range seqs {
 		if !c.Mine(i) {
 			continue
